@@ -412,8 +412,11 @@ def main(argv=None):
                    "C02: Fq operations are exact (layer below)", "clang -O1 vs shipped -Ofast (T11)"]
     chk.assumptions = ["Fq layer (Fp<384>::add/subtract/multiply/square/multiply2/negate/copy/is_zero/equal, fp_inverse) behaves as the field Fq: proved by C02/C03"]
     # lower layers whose specifications this check relies on: their obligations are part of this check's claim (framework.Check.include)
-    for dep in ['C02', 'C03', 'C18']:
+    for dep in ['C02', 'C03', 'C18', 'C20']:
         chk.include(dep)
+    # "exponentiation" on the cyclotomic subgroup: the templates of include/bls12_381/fq12.hpp and Fq12::exponentiate_gt are decided as whole runs
+    # in the exponent model by C07
+    chk.include("C07", only=r"^gt-")
     chk.run()
     chk.finish()
 
